@@ -34,7 +34,51 @@ func merge(a, b map[string]string) map[string]string {
 	return out
 }
 
+func symOnly(i Instance) Instance { i.SymOnly = true; return i }
+
 func init() {
+	reg(&Property{
+		ID: "C20",
+		Instances: func(tier string) []Instance {
+			out := []Instance{
+				symOnly(inst("internal/anonssh", "HSSH", "nkeys", -1, "k", 1)),
+				symOnly(inst("internal/anonssh", "HSSH", "nkeys", 0, "k", 1)),
+				symOnly(inst("internal/anonssh", "HSSH", "nkeys", 2, "k", 2)),
+				symOnly(inst("internal/maincmd", "HSSHExec", "k", 2)),
+				symOnly(inst("internal/maincmd", "HSSHExec", "k", 3)),
+			}
+			if tier == "thorough" {
+				out = append(out, symOnly(inst("internal/anonssh", "HSSH", "nkeys", 3, "k", 3)), symOnly(inst("internal/maincmd", "HSSHExec", "k", 4)))
+			}
+			return out
+		},
+		MustReach: []string{"admitted", "refused", "chan-rejected", "req-refused", "exec", "daemon"},
+		Redirects: merge(merge(sym.VfsRedirects(), sym.SSHRedirects()), sym.SSHExecRedirects()),
+		Bounds:    "keys: client key blob of 3 symbolic bytes against an anonymous listener or a set of 0..2 (thorough 3) symbolic blobs, through the real Serve and the PublicKeyCallback it installs; dispatch: one channel of symbolic type (session, direct-tcpip, x11, forwarded-tcpip) carrying k requests of symbolic type (exec, shell, subsystem, pty-req, env, x11-req); command lines: 'rsync' + k tokens from a 12-word vocabulary (--server --daemon --sender -r -e sh . /etc/ host:/x --gokr.modulemap=... --delete and a compact option cluster) through the function both SSH listeners install as their command callback and the real option parser",
+		Outside:   "x/crypto/ssh (handshake, signature verification, channel multiplexing) and shlex are replaced by stand-ins: trusted; authorized_keys file parsing; command lines outside the vocabulary",
+		Assumptions: []string{"x/crypto/ssh verifies that the client holds the private key for the blob it presents (trusted)"},
+	})
+	reg(&Property{
+		ID: "C01",
+		Instances: func(tier string) []Instance {
+			var out []Instance
+			maxN, maxM := 3, 2
+			if tier == "thorough" {
+				maxN, maxM = 5, 4
+			}
+			for m := -1; m <= maxM; m++ {
+				for n := 0; n <= maxN; n++ {
+					out = append(out, inst("rsyncd", "HEndToEnd", "n", n, "m", m))
+				}
+			}
+			out = append(out, inst("internal/maincmd", "HPush"))
+			return out
+		},
+		MustReach: []string{"transferred", "skipped", "deleted", "kept"},
+		Redirects: sym.VfsRedirects(),
+		Bounds:    "per file: generator -> sender -> receiver composed on the real functions; source n bytes, prior destination absent (m=-1) or a regular file of m bytes, all contents, seeds, mtimes (int32) and -c -I -t -p symbolic; plus a push of a directory tree through the real client, option plumbing and receiving server (HPush)",
+		Outside:   "files of 700 bytes and more (multi-block layouts are covered on the sender/receiver halves under C02), directory walking with several regular files in one session, the pull and local arrangements end to end, real sockets/pipes/processes",
+	})
 	reg(&Property{
 		ID: "C05",
 		Instances: func(tier string) []Instance {
